@@ -1,6 +1,7 @@
 #![allow(clippy::too_many_arguments)]
 #![allow(dead_code)]
 mod alloc;
+mod apisim;
 mod ccrypto;
 mod client;
 mod codec;
